@@ -138,3 +138,25 @@ def send_to_other_process(proxy):
 
 def receive_in_process(wire):
     return pickle.loads(wire)
+
+
+def receive_as_process_argument(wire):
+    """Unpickle the way a spawned child loads its process object (multiprocessing.spawn._main sets `_inheriting`)."""
+    cp = _p.current_process()
+    cp._inheriting = True
+    try:
+        return pickle.loads(wire)
+    finally:
+        del cp._inheriting
+
+
+def process_exits_holding(proxy):
+    """What multiprocessing.util._exit_function does for a proxy that is still alive when its process exits: a finalizer
+    registered with an exit priority is run, one without is discarded (and then never runs)."""
+    f = getattr(proxy, '_close', None)
+    if f is None:
+        return
+    if f._key[0] is not None:
+        f()
+    else:
+        f.cancel()
